@@ -76,6 +76,14 @@ pub fn rates_segment(case: &RatesCase, scratch: &std::path::Path) -> Value {
     let dir = scratch.join(format!("rates_{}", case.id.replace('/', "_")));
     let _ = std::fs::remove_dir_all(&dir);
     std::fs::create_dir_all(&dir).unwrap();
+    let v = rates_segment_in(case, &dir);
+    let _ = std::fs::remove_dir_all(&dir);
+    v
+}
+
+/// run the case over the given cache directory (which is left as the runs leave it)
+pub fn rates_segment_in(case: &RatesCase, dir: &std::path::Path) -> Value {
+    let dir = dir.to_path_buf();
     let remote = Rc::new(RefCell::new(Remote { cal: case.cal.iter().cloned().collect(), ..Default::default() }));
     let mem_store = RcRefCellT::new(std::collections::HashMap::<u32, Vec<DailyRate>>::new());
     let mut loader: Option<RateLoader> = None;
@@ -140,7 +148,6 @@ pub fn rates_segment(case: &RatesCase, scratch: &std::path::Path) -> Value {
             _ => {}
         }
     }
-    let _ = std::fs::remove_dir_all(&dir);
     let cal: Vec<Value> = case.cal.iter().map(|(d, q)| json!([d, dj(&q.parse::<Decimal>().unwrap_or_default()), date_of(*d).year() >= 2017])).collect();
     json!({"id": case.id, "cache": if case.cache == "mem" { "mem" } else { "csv" }, "cal": cal, "events": evs, "tags": case.tags})
 }
